@@ -275,6 +275,8 @@ def run(ctx):
                 why = "raised %s: %s" % (type(e).__name__, str(e)[:140])
             if why:
                 ctx.violation("ivpadj/tuple-state/%s" % method, "solve_ivp(%s) with a list-of-tensors state on the %s grid: %s" % (method, gname, why), {"method": method, "grid": gname})
+    from vlib import gradpattern
+    ctx.replayed = gradpattern.replay(ctx, ["solve_ivp"], "ivpadj")
     ctx.samples.append(traces[0])
     ctx.notes.update(runs=len(traces), probe_runs=sum(1 for t_ in traces if t_["cfg"]["probe"]), segment_events=sum(1 for t_ in traces for e in t_["ev"] if e["a"] == "seg"))
     ctx.assumptions += [
